@@ -5,7 +5,8 @@
    every tree built by jbn_from_json / from the binary form is good (C16_parsed_documents_good). *)
 Require Import ZArith List Bool Permutation.
 Require Import IW.Lib.CInt IW.UT.Conv IW.JSON.Val IW.JSON.Patch IW.JSON.PatchSpec IW.JSON.Patch_proofs
-               IW.JSON.Mem IW.JSON.Merge IW.JSON.Merge_proofs IW.Gen.Facts IW.JSON.Binn IW.JSON.WriteBack IW.JSON.WriteBack_proofs.
+               IW.JSON.Mem IW.JSON.Merge IW.JSON.Merge_proofs IW.Gen.Facts IW.JSON.Binn IW.JSON.WriteBack IW.JSON.WriteBack_proofs
+               IW.JSON.PatchExt_proofs IW.JSON.MergePath_proofs.
 Import ListNotations. Local Open Scope Z_scope.
 
 Theorem C16_parsed_documents_good : forall v kl key, good (of_val kl key v) /\ val (of_val kl key v) = v.
@@ -166,3 +167,90 @@ Example C16_ex_writeback_long_name :
   let p n := of_val 0 [] (JObj [([97], JObj [(repeat 107 n, JI64 3); ([122], JI64 4)])]) in
   (exists b', jbl_merge_model doc (p 255%nat) = (RcOk, b')) /\ jbl_merge_model doc (p 256%nat) = (RcCreation, doc).
 Proof. cbv zeta. split; [eexists|]; vm_compute; reflexivity. Qed.
+
+(* ================================================================== deepening round: the path form and the registry entry
+   points inside the ownership model, for EVERY target, EVERY path text and EVERY value (C16_merge_path_rfc7386 above assumed an
+   object root, a parsed pointer and the pool mode). *)
+
+(* jbn_merge_patch_create: "" and "/" hand the value on; an unacceptable pointer (not rfc6901, or ending in "/") is
+   JBL_ERROR_JSON_POINTER; otherwise the patch is the wrapper object {seg1:{seg2:...value}} - an empty object at the end when
+   no value is given *)
+Theorem C16_merge_path_create_total : forall path v, opt_good v ->
+  match merge_patch_create path v with
+  | inl e => e = RcPtr /\ lib_ptr path = None
+  | inr None => v = None /\ (path = [] \/ path = [47])
+  | inr (Some p) => good p /\
+                    (((path = [] \/ path = [47]) /\ v = Some p) \/
+                     (exists segs, lib_ptr path = Some segs /\ path <> [] /\ path <> [47] /\ n_ty p = TObj /\
+                                   val p = JObj (wrap_val segs (option_map val v))))
+  end.
+Proof. exact merge_patch_create_spec. Qed.
+Print Assumptions C16_merge_path_create_total.
+
+(* pool mode: nothing is freed individually; the result is MergePatch(root, wrapper) or the root is untouched *)
+Theorem C16_merge_path_pool_total : forall root path v, good root -> opt_good v ->
+  match jbn_merge_patch_path_pool root path v with
+  | (RcOk, r) => exists p, merge_patch_create path v = inr (Some p) /\
+                           val r = merge_spec (Some (val root)) (val p) /\ good r
+  | (_, r) => r = root
+  end.
+Proof. exact merge_path_pool_total. Qed.
+Print Assumptions C16_merge_path_pool_total.
+
+(* heap mode (pool == 0; the wrapper lives in a private pool): every allocation made by the call is reachable from the result or
+   was freed exactly once - live allocations afterwards = those of the result + the frame, no DoubleFree / UseAfterFree, freeing the
+   result returns the heap to the frame; failure (bad pointer, non-object root or value at the root path) changes nothing *)
+Theorem C16_merge_path_heap_safe : forall h root path v F, good (forget root) -> opt_good v ->
+  Permutation (h_live h) (owns root ++ F) ->
+  exists rc h' root', jbn_merge_patch_path_heap h root path v = inr (rc, h', root') /\
+    Permutation (h_live h') (owns root' ++ F) /\
+    (exists h'', destroy h' root' = inr h'' /\ Permutation (h_live h'') F) /\
+    (rc = RcOk -> exists p, merge_patch_create path v = inr (Some p) /\ n_ty p = TObj /\ hn_ty root = TObj /\
+                            val (forget root') = merge_spec (Some (val (forget root))) (val p) /\ good (forget root')) /\
+    (rc <> RcOk -> root' = root /\ h' = h).
+Proof. exact merge_path_heap_safe. Qed.
+Print Assumptions C16_merge_path_heap_safe.
+
+(* iwjsreg_merge (and iwjsreg_merge_str/_i64/_f64/_bool/_remove, whose value is a scalar node on the caller's stack): the registry's
+   heap-allocated tree; the dirty flag is set by a successful call and only by it *)
+Theorem C16_iwjsreg_merge_safe : forall h root dirty path v F, good (forget root) -> opt_good v ->
+  Permutation (h_live h) (owns root ++ F) ->
+  exists rc h' root' dirty', iwjsreg_merge_model h root dirty path v = inr (rc, h', root', dirty') /\
+    Permutation (h_live h') (owns root' ++ F) /\
+    (exists h'', destroy h' root' = inr h'' /\ Permutation (h_live h'') F) /\
+    (rc = RcOk -> dirty' = true /\
+                  exists p, merge_patch_create path v = inr (Some p) /\
+                            val (forget root') = merge_spec (Some (val (forget root))) (val p) /\ good (forget root')) /\
+    (rc <> RcOk -> root' = root /\ h' = h /\ dirty' = dirty).
+Proof. exact iwjsreg_merge_safe. Qed.
+Print Assumptions C16_iwjsreg_merge_safe.
+
+(* a registry {"a":{"b":"old","k":[1,"s"]},"c":"str"}: iwjsreg_merge_str at /a/b replaces the string (the old one is freed),
+   iwjsreg_merge_remove at /a/k frees the array with its string item, merging {"n":1} at /c/x turns the string member into an
+   object; each time the tree owns exactly the live allocations, and a path ending in "/" changes nothing and leaves dirty = false *)
+Example C16_ex_registry :
+  let doc := of_val 0 [] (JObj [([97], JObj [([98], s [111;108;100]); ([107], JArr [JI64 1; s [115]])]); ([99], s [115;116;114])]) in
+  let h0 := fst (heap_of doc) in let r0 := snd (heap_of doc) in
+  good (forget r0) /\ Permutation (h_live h0) (owns r0 ++ []) /\
+  match iwjsreg_merge_scalar h0 r0 false [47;97;47;98] TStr 0 [110;101;119] with
+  | inr (RcOk, h1, r1, true) =>
+    val (forget r1) = JObj [([97], JObj [([98], s [110;101;119]); ([107], JArr [JI64 1; s [115]])]); ([99], s [115;116;114])] /\
+    match iwjsreg_merge_scalar h1 r1 false [47;97;47;107] TNull 0 [] with
+    | inr (RcOk, h2, r2, true) =>
+      val (forget r2) = JObj [([97], JObj [([98], s [110;101;119])]); ([99], s [115;116;114])] /\
+      match iwjsreg_merge_model h2 r2 false [47;99;47;120] (Some (of_val 0 [] (JObj [([110], JI64 1)]))) with
+      | inr (RcOk, h3, r3, true) =>
+        val (forget r3) = JObj [([97], JObj [([98], s [110;101;119])]); ([99], JObj [([120], JObj [([110], JI64 1)])])] /\
+        iwjsreg_merge_model h3 r3 false [47;99;47] None = inr (RcPtr, h3, r3, false) /\
+        match destroy h3 r3 with inr h4 => h_live h4 = [] | inl _ => False end
+      | _ => False
+      end
+    | _ => False
+    end
+  | _ => False
+  end.
+Proof.
+  cbv zeta. destruct (heap_of_ok (of_val 0 [] (JObj [([97], JObj [([98], s [111;108;100]); ([107], JArr [JI64 1; s [115]])]); ([99], s [115;116;114])]))
+                                 (of_val_good _ _ _)) as [A [B _]].
+  split; [exact B|]. split; [exact A|]. vm_compute. repeat split; reflexivity.
+Qed.
